@@ -80,6 +80,19 @@ Theorem C17_distances_follow_method : forall (F : Type) flt fgt mean mt (s s' : 
      dm_get F (a, b) (l_dm F s') = dm_get F (a, b) (l_dm F s)).
 Proof. exact arith_round_distances. Qed.
 
+(* union: the new cluster's set is the union (HpoSet::extend) of the two merged sets, the distance
+   from every other live node to it is the user's distance between that union and the node's set,
+   and all distances between other nodes are kept *)
+Theorem C17_union_distances : forall (F : Type) flt dist (s s' : lstate F) i j d gi gj, LI F s ->
+  union_round F flt dist s = Ok (Some s') -> closest F flt (l_dm F s) = Some (i, j, d) ->
+  nth_error (l_sets F s) i = Some (Some gi) -> nth_error (l_sets F s) j = Some (Some gj) ->
+  (forall idx g, nth_error (l_sets F s) idx = Some (Some g) -> idx <> i -> idx <> j ->
+     dm_get F (idx, length (l_sets F s)) (l_dm F s') = Some (dist (set_extend gi gj) g)) /\
+  (forall a b, a <> i -> a <> j -> b <> i -> b <> j -> b <> length (l_sets F s) ->
+     dm_get F (a, b) (l_dm F s') = dm_get F (a, b) (l_dm F s)) /\
+  nth_error (l_sets F s') (length (l_sets F s)) = Some (Some (set_extend gi gj)).
+Proof. exact union_round_distances. Qed.
+
 Print Assumptions C17_combinations_state_machine.
 Print Assumptions C17_initial_pairs_each_once.
 Print Assumptions C17_closest_is_minimum.
@@ -88,3 +101,4 @@ Print Assumptions C17_accepted_merges_form_a_dendrogram.
 Print Assumptions C17_single_root_means_n_minus_1_merges.
 Print Assumptions C17_clustering_run.
 Print Assumptions C17_distances_follow_method.
+Print Assumptions C17_union_distances.
